@@ -63,6 +63,22 @@ def run(ck):
                   'declared payload length `%s` is assigned only past value <= max_control_stream_bytes()' % pr.text(rhs),
                   fails[0][3] if fails else None)
     ck.floor('C28.len', 'header-derived definitions of the declared length', header_defs, 1)
+    # nothing else in parse_request takes bytes off the socket: the header lines (recv_line) and the one sized body read are the only
+    # readers — an over-cap request is refused from its headers, not after "draining" what it announced
+    from sa.callgraph import CallGraph as _CG28
+    G28 = _CG28(P)
+    readers = set()
+    for i in pr.walk():
+        c_ = pr.nodes[i].get('callee') or ''
+        if c_ in P.by_q and pr.nodes[i]['k'] in ('CallExpr', 'CXXMemberCallExpr'):
+            reach = G28.reachable([c_])
+            direct_recv = any((g_.nodes[j].get('callee') or '') in ('recv', '::recv', 'read', '::read', 'recvfrom') for q_ in reach if q_ in P.by_q for g_ in P.by_q[q_] for j in g_.walk())
+            if direct_recv:
+                readers.add(c_.split('::')[-1])
+    nrx = len(pr.calls(ANON + 'recv_exact'))
+    ck.ob('C28.len', 'C28.len/only-sized-body-read', readers <= {'recv_line', 'recv_exact'} and nrx == 1, pr.loc(),
+          'parse_request reads from the socket only through recv_line and a single recv_exact sized by the capped length (found readers %s, %d recv_exact call(s))'
+          % (sorted(readers), nrx))
 
     # ---- handle_store gates ----------------------------------------------------------
     hs = P.fn(IMPL + 'handle_store')
@@ -214,6 +230,19 @@ def run(ck):
         others = sorted(q for q in users if q not in allowed and not q.startswith(IMPL + owner + '::$') and P.fn(q).kind not in ('ctor', 'dtor'))
         ck.ob('C28.limiter', 'C28.limiter/%s/sole-owner' % hist, not others, users[others[0]] if others else P.fn(IMPL + owner).loc(),
               '%s is touched only by %s (found also: %s)' % (hist, owner, ', '.join(q.replace(IMPL, '') for q in others) or 'nothing'))
+
+    # ... and a history is never emptied wholesale: entries leave only by ageing out (the prune in the limiter) — no clear() on a
+    # per-identity table, whoever holds the reference
+    wipes = []
+    for f in P.fns:
+        for i in f.walk():
+            nd_ = f.nodes[i]
+            if nd_['k'] == 'CXXMemberCallExpr' and (nd_.get('callee') or '').split('::')[-1] in ('clear', 'swap') and f.receiver(i) is not None:
+                rt = (f.nodes[f.strip(f.receiver(i))].get('t') or '')
+                if 'unordered_map<std::basic_string<char>, std::vector<std::chrono::time_point' in rt:
+                    wipes.append((f, i))
+    ck.ob('C28.limiter', 'C28.limiter/no-wholesale-reset', not wipes, wipes[0][0].loc(wipes[0][1]) if wipes else '',
+          'no per-identity rate table is cleared or swapped out (a bounded table that is wiped when full hands every throttled identity a fresh budget)')
 
     # ---- numeric headers are parsed without wrap-around: a PAYLOAD-LENGTH / TTL of 2^64 + k must be refused, not read as k -----------
     from sa.absint2 import Analyzer, summarize, report
